@@ -1087,7 +1087,7 @@ SIMPLE_ADDS = [
     ({"k": "array", "items": {"k": "int"}}, []), ({"k": "map", "values": {"k": "string"}}, {}),
     ({"k": "array", "items": {"k": "string"}}, ["a", "b"]),
 ]
-def _rich_add(d, table):
+def _rich_add(d, table, owner=""):
     """(type, JSON default) for a reader-only field beyond the simple ones: numbers given as JSON integers, new named
     types (enum, fixed-free record with nested defaults), non-empty maps, unions whose first branch is not null,
     references to types that already exist."""
@@ -1106,7 +1106,8 @@ def _rich_add(d, table):
         table[name] = {"k": "enum", "name": name, "aliases": [], "symbols": ["P", "Q", "R"]}
         return {"k": "ref", "name": name}, d.choice(["P", "R"])
     earlier = [k for k in table if k.startswith("AddedRec")]
-    if w in ("record", "union-record") and earlier and d.p(0.6):
+    if w in ("record", "union-record") and earlier and not owner.startswith("Added") and d.p(0.6):
+        # (never inside an Added* record itself: a record whose own field defaults to a value of that record never ends)
         # the type already exists: the field refers to it BY NAME and its default still has to be completed
         return ({"k": "ref", "name": earlier[0]} if w == "record" else {"k": "union", "branches": [{"k": "ref", "name": earlier[0]}, {"k": "null"}]}), d.choice([{"q": []}, {"q": ["y"], "p": 2}])
     if w in ("record", "union-record", "nested"):
@@ -1270,7 +1271,7 @@ def _apply(d, step, holder, table):
             return False
         r = d.choice(recs)
         if d.p(0.6):
-            t, dv = _rich_add(d, table)
+            t, dv = _rich_add(d, table, r["name"])
         else:
             t, dv = d.choice(SIMPLE_ADDS)
         f = {"name": f"added{len(r['fields'])}", "type": _copy.deepcopy(t), "aliases": []}
